@@ -1,14 +1,13 @@
 #!/bin/bash
-# seedtest.sh <PROP> <seed dir with patch.diff, demo.py>  — confirm a seeded change and run the check against it in a scratch worktree
-P="$1"; D="$2"; W=/tmp/mut_$$
+# seedtest.sh <PROP> <seed dir with patch.diff, demo.py>  — confirm a seeded change and run the check against it.
+# The change is applied in a scratch worktree of /repo and the check runs from a scratch COPY of /verif (build products included),
+# so neither /repo nor /verif (evidence, generated tables, build output) sees anything of the mutated tree. TIER=thorough for the thorough tier.
+P="$1"; D="$2"; W=/tmp/mut_$$; V=/tmp/verif_seed_$$
 git -C /repo worktree add -q --detach $W HEAD || exit 3
-trap "git -C /repo worktree remove --force $W" EXIT
+trap "git -C /repo worktree remove --force $W; rm -rf $V" EXIT
 echo "== demo without change:"; (cd $W && PYTHONPATH=$W /venv/bin/python $D/demo.py >/dev/null 2>&1; echo "exit $?")
 git -C $W apply $D/patch.diff || { echo "patch does not apply"; exit 3; }
-echo "== tests with change:"; (cd $W && PYTHONPATH=$W /venv/bin/python -m pytest -q -p no:cacheprovider 2>&1 | tail -1)
-echo "== demo with change:"; (cd $W && PYTHONPATH=$W /venv/bin/python $D/demo.py >/dev/null 2>&1; echo "exit $?")
-# the evidence file and generated tables written by a run against a mutated tree must not survive it
-cp /verif/evidence/$P.json /tmp/ev_$$.json 2>/dev/null
-echo "== check $P quick:"; (cd /verif && DRX_REPO=$W ./check $P --tier ${TIER:-quick} 2>&1 | grep -v "^KNOWN-FINDING" | tail -3)
-cp /tmp/ev_$$.json /verif/evidence/$P.json 2>/dev/null; rm -f /tmp/ev_$$.json
-(cd /verif && git checkout -- lean/Drx/Gen 2>/dev/null)
+echo "== tests with change:"; (cd $W && PYTHONPATH=$W timeout 600 /venv/bin/python -m pytest -q -p no:cacheprovider 2>&1 | tail -1)
+echo "== demo with change:"; (cd $W && PYTHONPATH=$W timeout 600 /venv/bin/python $D/demo.py >/dev/null 2>&1; echo "exit $?")
+mkdir -p $V /tmp/seed_replays && rsync -a --delete --exclude .git --exclude replays --exclude .work /verif/ $V/ && mkdir -p $V/.work
+echo "== check $P ${TIER:-quick}:"; (cd $V && DRX_REPO=$W ./check $P --tier ${TIER:-quick} 2>&1 | grep -v "^KNOWN-FINDING" | tail -3; cp $V/replays/*.json /tmp/seed_replays/ 2>/dev/null)
